@@ -311,7 +311,7 @@ for grp, cfg in (('lowlevel', 'baseline'), ('temp', 'release')):
         bounds='all instructions of the linked module (not a solver query)')
 
 # a block with a full 255-node chunk plus a remainder chunk, inserted into an empty list / below / above an existing chunk
-for ns in (1, 3):
+for ns in (1,):
     for have in (0, 1):          # 'below an existing chunk' (have = 2) gives no verdict within 16 GB / 3000 s: outside the claim
         for krem in (1, 3):
             add('sfl-insert_multi-release-ns%d-h%d-k%d' % (ns, have, krem), SFL_PROPS[14], 'freelist', 'sfl_step.c', config='release',
